@@ -26,6 +26,7 @@ type event struct {
 }
 
 type evbuf struct {
+	mu  sync.Mutex // a buffer normally belongs to one goroutine; the underlying streams of C41 are shared
 	evs []event
 }
 
@@ -48,8 +49,10 @@ func (l *evlog) add(b *evbuf, m map[string]any) uint64 {
 	if l.off.Load() {
 		return 0
 	}
+	b.mu.Lock()
 	seq := l.ctr.Add(1)
 	b.evs = append(b.evs, event{seq, m})
+	b.mu.Unlock()
 	return seq
 }
 
@@ -58,7 +61,9 @@ func (l *evlog) merged() []map[string]any {
 	defer l.mu.Unlock()
 	var all []event
 	for _, b := range l.bufs {
+		b.mu.Lock()
 		all = append(all, b.evs...)
+		b.mu.Unlock()
 	}
 	sort.Slice(all, func(i, j int) bool { return all[i].seq < all[j].seq })
 	out := make([]map[string]any, len(all))
